@@ -195,7 +195,7 @@ func checkControllerTable(c *Ctx) {
 						continue
 					}
 					if e.Fn != nil && fnName(e.Fn) == "controller.distributeEvents" {
-						a := e.Args[1]
+						a := sliceArg(e)
 						src := "OTHER:" + a.Key()
 						if x := ex(a, "0"); x != nil && x.K == "invoke" && isCache(x.A[0]) {
 							src = x.S + "-events"
